@@ -11,4 +11,4 @@ for id in "$@"; do
   tail -1 /tmp/cijverif.mut.$$
 done
 rm -f /tmp/cijverif.mut.$$
-cd /repo && git checkout -- . && git clean -fdq examples
+cd /repo && git checkout -- . && git clean -fdq examples cij tests
